@@ -3,11 +3,16 @@
 
    case:
      RCase fmt nostd chans first init ops     detector driven through its public API
-     ACase fmt nostd chans n frames sq k fin  signal adaptor: from a counting source, k x next
+     ACase fmt nostd chans n frames sq k fin cl   signal adaptor: from a counting source, k x next
                                               (sq = 1: next_squared); fin = 0: the source is a closure
                                               (gen_mut: the frames, then equilibrium, never exhausted);
                                               fin = 1: signal::from_iter over the finite frame list
-                                              (one frame of look-ahead; exhausted once all are pulled)
+                                              (one frame of look-ahead; exhausted once all are pulled);
+                                              cl >= 0: before call number cl the adaptor is replaced by
+                                              its clone() (derive(Clone): the same state);
+                                              after the k calls: into_parts(), the returned detector is
+                                              observed and fed one more frame of the returned source
+   chans 0 = the bare sample type as a mono frame, 1.. = arrays.
    fmt 0 f32, 1 f64 (frame samples = bit patterns), 2 i16, 3 u8 (samples = integer values;
    Float companion f32; hand-written `s as f32 / 2^k`), 10 + c for the integer format with
    ConvSpec.fmt_code c (i8 i16 I24 i32 I48 i64 u8 u16 U24 u32 U48 u64; samples = integer values):
@@ -18,9 +23,13 @@
      (clone().into_parts()); at the end [5; window in iteration order, flattened]; [4; window_frames];
      a panicking constructor: [8; code].
      op ZWindow: [5; window in iteration order, flattened] then [3; square_sum bits..].
-   (ACase): per next [2; out bits..]; at the end [4; number of frames pulled from the source];
-     fin = 1: [3; is_exhausted] before the first call and after every call, and the count at the
-     end is the number of items taken from the iterator = min (length frames) (k + 1).
+     op ZClone (the detector is replaced by its clone(), derive(Clone)): [10] then [3; square_sum bits..].
+   (ACase): per next [2; out bits..]; then [4; number of frames pulled from the source];
+     fin = 1: [3; is_exhausted] before the first call and after every call, and the count
+     is the number of items taken from the iterator = min (length frames) (k + 1).
+     Then dasp_signal::rms::Rms::into_parts() = (source, detector): [5; window of the detector];
+     [3; square_sum]; [4; window_frames]; [2; current()]; [2; detector.next(source.next())];
+     fin = 1: [3; source.is_exhausted()]; [4; count again].
 
    The to_float_frame conversions of the integer formats are GENERATED from the source, so the model
    follows a wrong conversion; the verdict therefore also checks every converted input sample against
@@ -37,11 +46,11 @@ From DaspGen Require ConvFloatGen SampleTable.
 Import ListNotations.
 Open Scope Z_scope.
 
-Inductive zop := ZNext (fr : list Z) | ZNextSq (fr : list Z) | ZCurrent | ZReset | ZWindow.
+Inductive zop := ZNext (fr : list Z) | ZNextSq (fr : list Z) | ZCurrent | ZReset | ZWindow | ZClone.
 
 Inductive case :=
 | RCase (fmt nostd chans first : Z) (init : list (list Z)) (ops : list zop)
-| ACase (fmt nostd chans n : Z) (frames : list (list Z)) (sq k fin : Z).
+| ACase (fmt nostd chans n : Z) (frames : list (list Z)) (sq k fin cl : Z).
 
 Definition B2D {prec emax} (x : binary_float prec emax) : dy :=
   match x with
@@ -72,11 +81,11 @@ Definition conv_op (o : zop) : op K :=
   match o with
   | ZNext fr => ONext (map inconv fr)
   | ZNextSq fr => ONextSq (map inconv fr)
-  | ZCurrent | ZWindow => OCurrent
+  | ZCurrent | ZWindow | ZClone => OCurrent
   | ZReset => OReset
   end.
 Definition op_code (o : zop) : Z :=
-  match o with ZNext _ => 0 | ZNextSq _ => 1 | ZCurrent => 2 | ZReset => 3 | ZWindow => 4 end.
+  match o with ZNext _ => 0 | ZNextSq _ => 1 | ZCurrent => 2 | ZReset => 3 | ZWindow => 4 | ZClone => 5 end.
 Definition op_in (o : zop) : list (T K) :=
   match o with ZNext fr | ZNextSq fr => map inconv fr | _ => [] end.
 
@@ -85,10 +94,12 @@ Fixpoint trace (st : rms K) (ops : list zop) : list (tr K) * rms K * option Z :=
   match ops with
   | [] => ([], st, None)
   | o :: t =>
-    match step K st (conv_op o) with
+    (* ZClone: the detector is replaced by [rms_clone] of itself; ZWindow/ZClone go through
+       OCurrent, which leaves the state alone *)
+    match step K (match o with ZClone => rms_clone K st | _ => st end) (conv_op o) with
     | Ok (st', out) =>
       let '(l, stf, e) := trace st' t in
-      let out' := match o with ZWindow => concat (fiter (window K st')) | _ => out end in
+      let out' := match o with ZWindow => concat (fiter (window K st')) | ZClone => [] | _ => out end in
       ({| t_op := op_code o; t_in := op_in o; t_out := out'; t_sum := square_sum K st' |} :: l, stf, e)
     | Panic k => ([], st, Some (Z.of_nat (panic_code k)))
     | UB => ([], st, Some 99)
@@ -97,7 +108,8 @@ Fixpoint trace (st : rms K) (ops : list zop) : list (tr K) * rms K * option Z :=
 
 Definition obs_of_trace (r : list (tr K) * rms K * option Z) : list (list Z) :=
   let '(l, stf, e) := r in
-  flat_map (fun t => [ (if t_op t =? 3 then [7] else (if t_op t =? 4 then 5 else 2) :: map tobits (t_out t));
+  flat_map (fun t => [ (if t_op t =? 3 then [7] else if t_op t =? 5 then [10]
+                        else (if t_op t =? 4 then 5 else 2) :: map tobits (t_out t));
                        3 :: map tobits (t_sum t) ]) l
   ++ match e with
      | Some c => [[8; c]]
@@ -117,25 +129,41 @@ Definition run_rcase (chans first : Z) (init : list (list Z)) (ops : list zop) :
 
 (* adaptor: source = the given frames, then silence (signal::from_iter semantics are not used:
    the harness source is a counting closure that returns the k-th frame, equilibrium afterwards) *)
-Definition run_acase (chans n : Z) (eqz : Z) (frames : list (list Z)) (sq k fin : Z) : list (list Z) :=
+Definition run_acase (chans n : Z) (eqz : Z) (frames : list (list Z)) (sq k fin cl : Z) : list (list Z) :=
   let c := Z.to_nat chans in
   let w := {| first := 0; fdata := repeat (equilibrium K c) (Z.to_nat n) |} in
   let s := fun i => map inconv (nth i frames (repeat eqz c)) in
   let len := Z.of_nat (length frames) in
-  let exh (a : adaptor K) : list (list Z) :=
-    if fin =? 1 then [[3; b2z (len <=? Z.of_nat (pulls K a))]] else [] in
-  let fix go (a : adaptor K) (j : nat) : list (list Z) :=
+  let exh_at (p : nat) : list (list Z) :=
+    if fin =? 1 then [[3; b2z (len <=? Z.of_nat p)]] else [] in
+  let exh (a : adaptor K) := exh_at (pulls K a) in
+  let count_at (p : nat) : list Z :=
+    [4; if fin =? 1 then Z.min len (Z.of_nat p + 1) else Z.of_nat p] in
+  (* dasp_signal::rms::Rms::into_parts, then the parts are used on their own *)
+  let parts (a : adaptor K) : list (list Z) :=
+    let '(src', p, d) := adaptor_into_parts K a in
+    [ 5 :: flat_map (map tobits) (fiter (window K d));
+      3 :: map tobits (square_sum K d);
+      [4; Z.of_nat (window_frames K d)];
+      2 :: map tobits (rms_current K d) ]
+    ++ match rms_next K d (src' p) with
+       | Ok (_, out) => (2 :: map tobits out) :: exh_at (S p) ++ [count_at (S p)]
+       | Panic q => [[8; Z.of_nat (panic_code q)]]
+       | UB => [[9]]
+       end in
+  let fix go (a : adaptor K) (j : nat) (i : Z) : list (list Z) :=
     match j with
-    | O => [[4; if fin =? 1 then Z.min len (Z.of_nat (pulls K a) + 1) else Z.of_nat (pulls K a)]]
+    | O => count_at (pulls K a) :: parts a
     | S j' =>
+      let a := if i =? cl then adaptor_clone K a else a in
       match (if sq =? 1 then adaptor_next_squared K a else adaptor_next K a) with
-      | Ok (a', out) => (2 :: map tobits out) :: exh a' ++ go a' j'
+      | Ok (a', out) => (2 :: map tobits out) :: exh a' ++ go a' j' (i + 1)
       | Panic p => [[8; Z.of_nat (panic_code p)]]
       | UB => [[9]]
       end
     end in
   let a0 := adaptor_new K s c w in
-  exh a0 ++ go a0 (Z.to_nat k).
+  exh a0 ++ go a0 (Z.to_nat k) 0.
 
 (* ---- property verdict on the model run (zero-initialised window only) ---- *)
 Definition all_zero_init (init : list (list Z)) : bool :=
@@ -147,7 +175,7 @@ Definition chan_events (c : nat) (l : list (tr K)) : option (list ev) :=
     | None => None
     | Some evs =>
       if t_op t =? 3 then Some (EReset :: evs)
-      else if (t_op t =? 2) || (t_op t =? 4) then Some evs
+      else if (t_op t =? 2) || (t_op t =? 4) || (t_op t =? 5) then Some evs
       else match nth_error (t_in t) c, nth_error (t_sum t) c with
            | Some x, Some s => if finite x && finite s then Some (EPush (toD x) (toD s) :: evs) else None
            | _, _ => None
@@ -233,26 +261,33 @@ Definition exact_amp (fmt : Z) (z : Z) : option dy :=
             end
   end.
 
+(* chans = 0: the bare sample type as a mono frame (Rms<f32, _>, Rms<i16, _>: Frame for a sample type has one
+   channel; to_float_frame is to_float_sample = to_sample, the same conversion) *)
+Definition nchan (chans : Z) : Z := if chans =? 0 then 1 else chans.
+
 Definition run_case (c : case) : list (list Z) :=
   match c with
-  | RCase fmt nostd chans first init ops =>
+  | RCase fmt nostd chans0 first init ops =>
+    let chans := nchan chans0 in
     if is64 fmt then run_rcase (NumF64sel nostd) F64.bits F64.of_bits (inconv64 fmt) chans first init ops
     else run_rcase (NumF32sel nostd) F32.bits F32.of_bits (inconv32 fmt) chans first init ops
-  | ACase fmt nostd chans n frames sq k fin =>
-    if is64 fmt then run_acase (NumF64sel nostd) F64.bits (inconv64 fmt) chans n (eq_input fmt) frames sq k fin
-    else run_acase (NumF32sel nostd) F32.bits (inconv32 fmt) chans n (eq_input fmt) frames sq k fin
+  | ACase fmt nostd chans0 n frames sq k fin cl =>
+    let chans := nchan chans0 in
+    if is64 fmt then run_acase (NumF64sel nostd) F64.bits (inconv64 fmt) chans n (eq_input fmt) frames sq k fin cl
+    else run_acase (NumF32sel nostd) F32.bits (inconv32 fmt) chans n (eq_input fmt) frames sq k fin cl
   end.
 
 Definition check_code (c : case * list (list Z)) : Z :=
   match fst c with
-  | RCase fmt nostd chans first init ops =>
+  | RCase fmt nostd chans0 first init ops =>
+    let chans := nchan chans0 in
     if is64 fmt then
       code_rcase (NumF64sel nostd) F64.bits F64.of_bits (inconv64 fmt) F64.is_finite F64.is_nan B2D 53 1024
                  (exact_amp fmt) chans first init ops (snd c)
     else
       code_rcase (NumF32sel nostd) F32.bits F32.of_bits (inconv32 fmt) F32.is_finite F32.is_nan B2D 24 128
                  (exact_amp fmt) chans first init ops (snd c)
-  | ACase _ _ _ _ _ _ _ _ => if zll_eqb (run_case (fst c)) (snd c) then 0 else 1
+  | ACase _ _ _ _ _ _ _ _ _ => if zll_eqb (run_case (fst c)) (snd c) then 0 else 1
   end.
 
 Definition check (c : case * list (list Z)) : bool := check_code c =? 0.
